@@ -1188,6 +1188,8 @@ func child(mode string, seed int64, from, to, nops, k int, out string) {
 			raceTrace(T, pool, seed, i)
 		case "race-add":
 			raceAddTrace(T, pool, seed, i)
+		case "race-tracker":
+			trackerRaceTrace(T, pool, seed, i)
 		default:
 			panic("unknown mode " + mode)
 		}
